@@ -421,6 +421,21 @@ fn history(req: &Value) -> R {
             "get_outpoints" => {
                 rec["n"] = json!(live.get_outpoints().len());
             }
+            "accessors" => {
+                // every read accessor of the transaction (some take &mut self): none of them may change what a later sighash returns
+                let n = live.get_outpoints().len();
+                let _ = (live.get_id_hex(), live.get_id_bytes(), live.get_size(), live.to_bytes(), live.to_hex(), live.to_json_string(), live.to_json().is_ok(), live.to_compact_bytes(), live.to_compact_hex());
+                // (the totals overflow for value sums >= 2^64, which C01 excludes from its claims: a panic here is not a verdict)
+                let _ = guarded(|| (live.satoshis_in(), live.satoshis_out()));
+                let _ = (live.is_coinbase(), live.is_coinbase_impl(), live.get_version(), live.get_n_locktime(), live.get_n_locktime_as_bytes(), live.get_ninputs(), live.get_noutputs());
+                for i in 0..live.get_ninputs() {
+                    let _ = live.get_input(i).map(|x| (x.get_outpoint_bytes(Some(true)), x.get_sequence_as_bytes(), x.get_finalised_script().is_ok()));
+                }
+                for i in 0..live.get_noutputs() {
+                    let _ = live.get_output(i).map(|x| (x.get_satoshis_as_bytes(), x.get_script_pub_key_size()));
+                }
+                rec["n"] = json!(n);
+            }
             "hash_inputs" => {
                 // public accessor that fills the hashPrevouts cache slot without going through a sighash call
                 rec["hash_inputs"] = h(&live.hash_inputs(flag_of(st_, "flag")?));
@@ -625,6 +640,21 @@ fn txin_codec(req: &Value) -> R {
 fn criteria(req: &Value) -> R {
     let mut tx = Transaction::from_bytes(&hx(req, "tx")?).map_err(|e| drv(format!("tx parse: {}", e)))?;
     apply_ext(&mut tx, req)?;
+    // inputs re-created through the construction API (TxIn::new with an ordinary script, whatever the outpoint) instead of the parser
+    if let Some(m) = req.get("api_inputs").and_then(|x| x.as_object()) {
+        for (k_, v) in m {
+            let i: usize = k_.parse().map_err(|_| drv("api_inputs index"))?;
+            let old = tx.get_input(i).ok_or_else(|| drv("api_inputs index out of range"))?;
+            let mut n = mk_txin(v)?;
+            if let Some(s_) = old.get_satoshis() {
+                n.set_satoshis(s_);
+            }
+            if let Some(l) = old.get_locking_script() {
+                n.set_locking_script(&l);
+            }
+            tx.set_input(i, &n);
+        }
+    }
     let mut c = MatchCriteria::new();
     // the setters are called in the requested order (in place, return values ignored)
     let order: Vec<String> = match req.get("order").and_then(|x| x.as_array()) {
